@@ -46,9 +46,10 @@ GROUPS = {
     "surface": {
         "package": "zydeco-surface",
         "mods": {
-            "lang/surface/src/textual/lexer.rs": "surface_lexer.rs",
+            "lang/surface/src/textual/lexer.rs": ["surface_lexer.rs", "surface_tok_display.rs"],
             "lang/surface/src/textual/escape.rs": "gen:surface_actions.rs",
             "lang/surface/src/metadata.rs": "surface_metadata.rs",
+            "lang/surface/src/textual/err.rs": "surface_err.rs",
         },
     },
 }
@@ -115,7 +116,7 @@ PROPERTIES = {
             "span ends passed to the location translation are token boundaries of the same text (<= text length)",
         ],
         "outside": [
-            "the LR automaton, desugarer, resolver, type checker and diagnostic rendering (ariadne, Display of tokens, Display/to_report of ParseError) - most `expect` sites - are not encoded",
+            "the LR automaton, desugarer, resolver, type checker and diagnostic rendering (ariadne, Display of tokens, to_report of ParseError; the Display of ParseError only on 4 concrete corner cases) - most `expect` sites - are not encoded",
             "float literal text (dec2flt)",
             "inputs longer than the per-harness byte bounds",
         ],
